@@ -220,6 +220,8 @@ class Model:
                 trees[name] = ast.parse(text, filename=relpath)
             except SyntaxError as exc:
                 raise AnalysisError("cannot parse %s: %s" % (relpath, exc))
+        from .desugar import desugar_tree
+        self.desugared = sum(desugar_tree(t) for t in trees.values())
         self.inline_report = {"inlined": {}, "removed": [], "kept": []}
         if inline:
             from .inline import inline_trees
